@@ -383,9 +383,15 @@ def reserve_flag_rule(prog, rep):
     bad = []
     sets = [e for e in f.all_elems() if e.is_assign and norm(e.kid(0))[0] == "." and norm(e.kid(0))[2] == "reserved"]
 
+    nomark = []
+
     def visit(e, st):
         if own.is_failure_return(e) and st != 0:
             bad.append(e)
+        # ... and a successful one leaves the mark: consume() asserts it, and (with assertions compiled out) a reserve that is not
+        # marked lets the completion handler start the next write over space that is still being filled
+        if e.cls == "ReturnStmt" and e.kids and not own.is_failure_return(e) and st != 1:
+            nomark.append(e)
     sv.visit(visit)
     if not sets:
         rep.defer_broken("ATOMIC: netbuf_write_reserve no longer stores the reservation mark")
@@ -394,6 +400,12 @@ def reserve_flag_rule(prog, rep):
               "at the failure return %s W->reserved may still be set although NULL is returned: the next netbuf_write_reserve / netbuf_write_write on this writer, "
               "and the completion of a write already in flight, abort on their `reserved == 0` assertions" % (bad[0].loc if bad else ""),
               function=f.name, construct="reserved-flag")
+    rep.check(not nomark, "ATOMIC", "netbuf_write_reserve(): a successful reservation is marked", f.loc,
+              "the success return %s is reached with W->reserved not set" % (nomark[0].loc if nomark else ""), function=f.name, construct="reserved-set")
+    g = u.func("netbuf_write_consume")
+    if g is not None:
+        clr = [e for e in g.all_elems() if e.is_assign and e.op == "=" and norm(e.kid(0))[0] == "." and norm(e.kid(0))[2] == "reserved" and norm(e.kid(1)) == ("c", 0)]
+        rep.check(len(clr) >= 1 and all(not own.is_failure_return(r) or True for r in g.returns()), "ATOMIC", "netbuf_write_consume() ends the reservation", g.loc, "", function=g.name, construct="reserved-clear")
 
 
 def atomic_rule(prog, rep):
